@@ -26,4 +26,4 @@ For each mutation i = 1..{n}:
   3. verify the test suite result with the change applied (566 passed).
   4. write {wt}/meta{{i}}.json: {{"property": "{pid}", "summary": "...what was changed...", "needs": "...what specific input/sequence/state is needed for it to manifest...", "files": [...]}}
   5. restore the clean tree (git -C {wt} checkout -- . ) before the next mutation.
-Leave the worktree clean at the end (only the mut*.diff, demo*.py, meta*.json files added, untracked). In your final message list, for each mutation, one line: the file(s) touched, what it breaks and what it needs to manifest. Use /venv/bin/python for everything (it has lxml, Pillow, XlsxWriter). There is no network.""")
+NEVER use `git stash` (the stash is shared by all worktrees of the repository and other agents work in sibling worktrees): use `git diff > file`, `git checkout -- .` and `git apply file` only. Leave the worktree clean at the end (only the mut*.diff, demo*.py, meta*.json files added, untracked). In your final message list, for each mutation, one line: the file(s) touched, what it breaks and what it needs to manifest. Use /venv/bin/python for everything (it has lxml, Pillow, XlsxWriter). There is no network.""")
